@@ -44,18 +44,23 @@ def worker(case, led):
     fn = "TTNS.compress"
     nn = len(nodes)
     configs = [("fixed", dict(M=M)) for M in (1, 2, 3, 64)] + [("fixed", dict(per_node=[int(rng.integers(1, 4)) for _ in range(nn + 1)])),
+                                                              ("fixed", dict(per_node=[int(rng.integers(1, 5)) for _ in range(nn + 1)], via="temp_m_trunc")),
+                                                              ("fixed", dict(per_node=[1] + [int(rng.integers(1, 5)) for _ in range(nn)], via="temp_m_trunc")),
                                                               ("threshold", dict(thr=0.3)), ("threshold", dict(thr=1e-3)), ("both", dict(M=2, thr=0.1))]
     for crit, kw in configs:
         x = a.copy()
         cfg = CompressConfig(getattr(CompressCriteria, crit), threshold=kw.get("thr", 1e-3), max_bonddim=kw.get("M", 32))
-        if "per_node" in kw:
+        if "per_node" in kw and kw.get("via") != "temp_m_trunc":
             cfg.max_dims = np.array(kw["per_node"], dtype=int)
         x.compress_config = cfg
         key = (repr(su["shape"]), flavour, seed, crit, str(sorted(kw.items())))
         rep = dict(TU.describe_tree(bt), flavour=flavour, seed=seed, criteria=crit, config={k: (list(map(int, v)) if isinstance(v, list) else v) for k, v in kw.items()}, bond_dims_before=bd0)
-        f = {"criteria": crit, "per_node": "per_node" in kw}
+        f = {"criteria": crit, "per_node": "per_node" in kw, "via": kw.get("via", "config")}
         try:
-            x.compress()
+            if kw.get("via") == "temp_m_trunc":      # the same per-node limits handed over as a list argument
+                x.compress(temp_m_trunc=list(kw["per_node"]))
+            else:
+                x.compress()
         except Exception as e:
             led.check(False, f"post:{fn}:total", fn, f"raised {type(e).__name__}: {e}", key, f, rep)
             continue
